@@ -76,11 +76,18 @@ class Deep:
         """Shutdown deep."""
         if not self.started:
             return
-        self.trigger_handler.shutdown()
-        self.task_handler.flush()
-        self.poll.shutdown()
+        # every step is attempted, whatever the earlier ones did
+        for name, step in [("trigger handler", self.trigger_handler.shutdown), ("task handler", self.task_handler.flush),
+                           ("poll", self.poll.shutdown)]:
+            try:
+                step()
+            except Exception:
+                deep.logging.exception("Failed to shutdown %s", name)
         for plugin in self.config.plugins:
-            plugin.shutdown()
+            try:
+                plugin.shutdown()
+            except Exception:
+                deep.logging.exception("Failed to shutdown plugin %s", plugin.name)
         deep.logging.info("Deep is shutdown.")
         self.started = False
 
